@@ -399,6 +399,30 @@ def check_attribute_types(src):
     return em.blk(parse_body(body))
 
 
+def police_response(src, which):
+    """Message::unknown_attributes / Message::bad_request: class, method and transaction id of the response, which attributes it
+    carries in which order, when UNKNOWN-ATTRIBUTES is attached"""
+    txt = src.get(MSG)
+    imp = impl_body(txt, r"impl\s*<'a>\s*Message<'a>\s*\{")
+    if which == "unknown_attributes":
+        body = fn_body(imp or "", r"pub\s+fn\s+unknown_attributes\s*<'b>\s*\(\s*src\s*:\s*&Message\s*,\s*attributes\s*:\s*&\[AttributeType\]\s*,?\s*\)\s*->\s*MessageBuilder<'b>\s*\{")
+    else:
+        body = fn_body(imp or "", r"pub\s+fn\s+bad_request\s*<'b>\s*\(\s*src\s*:\s*&'a\s+Message\s*\)\s*->\s*MessageBuilder<'b>\s*\{")
+    if body is None:
+        raise XlateError(f"Message::{which} not found")
+    em = Emitter(
+        exprs=[("Message::builder($t, $tid)", "(Builder.new $t $tid)"),
+               ("MessageType::from_class_method(MessageClass::Error, $m)", "(fromClassMethod 3 $m)"),
+               ("src.method()", "src.method"), ("src.transaction_id()", "src.tid"),
+               ("Software::new($s).unwrap()", "(AttrVal.software (asciiBytes $s))"),
+               ("ErrorCode::new($c, $s).unwrap()", "(AttrVal.errorCode $c (asciiBytes $s))"),
+               ("UnknownAttributes::new(attributes)", "(AttrVal.unknownAttributes attributes)"),
+               ("attributes.is_empty()", "attributes.isEmpty"), ("out.into_owned()", "out.intoOwned")],
+        stmts=[("out.add_attribute(&$x).unwrap()", ("out", "(addOrSame out (BAttr.typed $x))"))],
+        state=None, ret="{v}", locals_=["src", "attributes"])
+    return em.blk(parse_body(body))
+
+
 ATTRMOD = "stun-types/src/attribute/mod.rs"
 DEC_EXPRS = [
     ("$d.len()", "$d.length"),
@@ -1087,6 +1111,8 @@ def items(src):
         return f
     yield ("FnIntegrity", "validateScan", "(H : Hashes) (m : Msg) (c : Creds) (algo : Algo) (msg_hmac : Bytes) (__f : Nat) (data : Bytes) (data_offset : Nat) : Except PErr Algo", vi_part("loop"), None)
     yield ("FnIntegrity", "validateIntegrity", "(H : Hashes) (m : Msg) (c : Creds) : Except PErr Algo", vi_part("entry"), None)
+    yield ("FnPolice", "unknownAttributes", "(src : Msg) (attributes : List Nat) : Builder", lambda: police_response(src, "unknown_attributes"), None)
+    yield ("FnPolice", "badRequest", "(src : Msg) : Builder", lambda: police_response(src, "bad_request"), None)
     yield ("FnPolice", "checkAttributeTypes", "(m : Msg) (supported required_in_msg : List Nat) : Option Builder", lambda: check_attribute_types(src), None)
     yield ("FnTcp", "tcpTake", "(buf : Bytes) (offset : Nat) : Bytes × Bytes", lambda: tcp_fn(src, "take"), None)
     yield ("FnTcp", "tcpPull", "(buf : Bytes) : Option Bytes × Bytes", lambda: tcp_fn(src, "pull_data"), None)
@@ -1107,7 +1133,7 @@ HEADERS = {
     "FnMsg": ["import StunVerif.Msg.IterState", "import StunVerif.Gen.MsgType", "namespace StunVerif.Gen", "open StunVerif", ""],
     "FnBuilder": ["import StunVerif.Msg.Builder", "namespace StunVerif.Gen", "open StunVerif", ""],
     "FnIntegrity": ["import StunVerif.Msg.ValidateLeaves", "import StunVerif.Gen.MsgType", "namespace StunVerif.Gen", "open StunVerif", ""],
-    "FnPolice": ["import StunVerif.Msg.Police", "import StunVerif.Gen.Attr", "namespace StunVerif.Gen", "open StunVerif", ""],
+    "FnPolice": ["import StunVerif.Msg.Police", "import StunVerif.Gen.Attr", "import StunVerif.Gen.MsgType", "namespace StunVerif.Gen", "open StunVerif", ""],
     "FnTcp": ["import StunVerif.Bytes", "namespace StunVerif.Gen", "open StunVerif", ""],
 }
 FALLBACK_FILE = os.path.join(os.path.dirname(os.path.abspath(__file__)), "fn_fallback.json")
